@@ -6,7 +6,7 @@ import kv, gen, rel
 
 def table_check(V, wd):
     tp, rc, err = kv.run_kvdrive("alphabet\n", wd, "alphabet", timeout=60)
-    res = kv.run_tlc("AlphabetTrace", "AlphabetTrace.cfg", wd, trace=tp, cont=True)
+    res = kv.run_tlc("AlphabetTrace", "AlphabetTrace.cfg", wd, trace=tp)
     V.add_tlc(res)
     for (ln, sid, items) in res.fails:
         mine = sorted(x for x in items if x.startswith("C14"))
